@@ -1,8 +1,8 @@
 (* C15: what is left of the fragment once the parser's pairing guarantee
    (C14_segments_paired) is used: for a path PREPARED FROM A TEXT the demands
    "types and attributes agree" of in_fragment / in_fragment_kw follow from
-   "no collector segment"; only that, the parse outcomes of the sub-paths and
-   (for keyword segments) the split of the parameter text remain. *)
+   "no collector segment"; only that and the parse outcomes of the sub-paths
+   remain. *)
 From Coq Require Import List String Bool.
 From YP Require Import Outcome PyStr PyVal Doc PathParser Eval SpecC15 Keywords EvalKw SpecC15kw.
 Import ListNotations.
@@ -10,8 +10,7 @@ Import ListNotations.
 Definition seg_shape (es us : seg) : bool :=
   negb (is_stype TCollector (fst es)) && negb (is_stype TCollector (fst us)).
 
-Definition seg_shape_kw (es us : seg) : bool :=
-  seg_shape es us && match snd es with AKeyword _ _ ps => kw_params_ok ps | _ => true end.
+Definition seg_shape_kw (es us : seg) : bool := seg_shape es us.
 
 Fixpoint shape_segs (sh : seg -> seg -> bool) (rec : ppath -> bool) (l : list pseg) : bool :=
   match l with
@@ -33,7 +32,8 @@ Fixpoint collector_free (p : ppath) : bool :=
          end) segs
   end.
 
-(* ... and every keyword parameter text splits *)
+(* ... the same demand, stated with [seg_shape_kw] (which asked every keyword
+   parameter text to split until finding F31 was repaired) *)
 Fixpoint collector_free_kw (p : ppath) : bool :=
   match p with
   | PFail (YPE _) => true
